@@ -181,7 +181,7 @@ PROPS = {
         "trusted_base": ["Model.Scope.snapshot is tied by the differential on random histories with snapshots at random points"],
     },
     "C14": {
-        "suites": ["c14", "c14race"],
+        "suites": ["c14", "c14race", "c12conc"],
         "assumptions": COMMON_ASSUME + [
             "channels: a send on a buffered channel is enabled iff it is open and not full (a send on a closed channel panics, also inside a select), a receive from a closed channel is always enabled, closing a closed channel panics, `range` over a channel ends when it is closed and drained (Go spec); modelled as the queue/closed flags of Model.M3Life",
             "queue capacity >= 1 (NewReporter replaces MaxQueueSize <= 0 by 4096: tie queue_capacity_positive)",
@@ -196,7 +196,7 @@ PROPS = {
         "timeout": {"quick": 300, "thorough": 3000},
     },
     "C12": {
-        "suites": ["c12", "c15", "c12conc"],
+        "suites": ["c12", "c15", "c12conc", "c13fault"],
         "assumptions": COMMON_ASSUME + [
             "the thrift encodings are those of Tally/Model/Thrift.lean (C16: byte-for-byte differential against the generated client); sizes in the spec are measured with that codec on the received bytes",
             "a metric's charge is fixed at allocation and value-independent, so 'charged >= bytes with the worst value of its kind' per metric + 'reserved overhead >= everything that is not a metric' + 'charges of a batch <= freeBytes' are judged per datagram; together they imply the bound for every batch composition (theorem datagram_le_max)",
